@@ -115,7 +115,7 @@ def el_to_coq(e):
             + coq_list([el_to_coq(c) for c in e]) + ")")
 
 
-def run(text, rpr=False):
+def mrun(text, rpr=False):
     return N("m:r", *([N("m:rPr", N("m:sty", val="p"))] if rpr else []), N("m:t", text=text))
 
 
@@ -161,14 +161,14 @@ def pr_variants(kind, full):
 
 def exhaustive(ctx):
     """every kind x property variant x slot present/absent x small operands; nestings; top-level sequences"""
-    ops = [None, [], [run("x")], [run("(")], [run("a)")], [run("α ")]]
+    ops = [None, [], [mrun("x")], [mrun("(")], [mrun("a)")], [mrun("α ")]]
     cases = []
     for kind, (pr, slots, chrs) in KINDS.items():
         for pv in pr_variants(kind, True):
-            slot_sets = [ops] * len(slots) if kind != "d" else [ops, [None, [run("y")], [run("]")]]]
+            slot_sets = [ops] * len(slots) if kind != "d" else [ops, [None, [mrun("y")], [mrun("]")]]]
             names = slots if kind != "d" else ["e", "e"]
             if chrs and pv is not None and len(pv[3]) > 1 and len(slots) > 1:
-                slot_sets = [[None, [run("x")]]] * len(names)  # operator variants: fewer operand variants
+                slot_sets = [[None, [mrun("x")]]] * len(names)  # operator variants: fewer operand variants
             for combo in itertools.product(*slot_sets):
                 kids = [] if pv is None else [pv]
                 for nm, c in zip(names, combo):
@@ -176,7 +176,7 @@ def exhaustive(ctx):
                         kids.append(N("m:" + nm, *c))
                 cases.append(("exh1:" + kind, wrap([N("m:" + kind, *kids)])))
     # matrix
-    cells = [[], [run("a")], [run("(")]]
+    cells = [[], [mrun("a")], [mrun("(")]]
     for r in range(0, 3):
         for c in range(0, 3):
             for cell in cells:
@@ -192,16 +192,16 @@ def exhaustive(ctx):
                 for prv in ((None, N("m:" + pr)) if chrs else (None,)):
                     kids = [] if prv is None else [prv]
                     for j, nm2 in enumerate(names):
-                        kids.append(N("m:" + nm2, *( [rep] if i == j else [run("u")])))
+                        kids.append(N("m:" + nm2, *( [rep] if i == j else [mrun("u")])))
                     cases.append((f"exh2:{kind}/{rname}", wrap([N("m:" + kind, *kids)])))
     for rname, rep in reps:
-        cases.append((f"exh2:m/{rname}", wrap([N("m:m", N("m:mr", N("m:e", rep), N("m:e", run("v"))))])))
+        cases.append((f"exh2:m/{rname}", wrap([N("m:m", N("m:mr", N("m:e", rep), N("m:e", mrun("v"))))])))
     # top-level sequences (pending-radical interplay)
-    pool = [run("("), run("a)"), run("b]"), run(")c)"), run("x"),
-            N("m:rad", N("m:deg"), N("m:e", run("("))), N("m:rad", N("m:deg", run("3")), N("m:e", run("["))),
-            N("m:rad", N("m:e", run(" ( "))), N("m:rad", N("m:deg", run("k)")), N("m:e", run("y"))),
-            N("m:f", N("m:num", N("m:rad", N("m:e", run("(")))), N("m:den", run("d)"))),
-            N("m:d", N("m:e", run("q)")))]
+    pool = [mrun("("), mrun("a)"), mrun("b]"), mrun(")c)"), mrun("x"),
+            N("m:rad", N("m:deg"), N("m:e", mrun("("))), N("m:rad", N("m:deg", mrun("3")), N("m:e", mrun("["))),
+            N("m:rad", N("m:e", mrun(" ( "))), N("m:rad", N("m:deg", mrun("k)")), N("m:e", mrun("y"))),
+            N("m:f", N("m:num", N("m:rad", N("m:e", mrun("(")))), N("m:den", mrun("d)"))),
+            N("m:d", N("m:e", mrun("q)")))]
     for n in (1, 2, 3):
         for combo in itertools.product(pool, repeat=n):
             cases.append((f"seq{n}", wrap(list(combo))))
@@ -210,18 +210,18 @@ def exhaustive(ctx):
 
 def representative():
     return [
-        ("run", run("z")),
-        ("rad-lone", N("m:rad", N("m:deg"), N("m:e", run("(")))),
-        ("close", run("c)")),
-        ("nary-prod", N("m:nary", N("m:naryPr", N("m:chr", val="∏")), N("m:sub", run("i")), N("m:sup"), N("m:e", run("p")))),
-        ("nary-noval", N("m:nary", N("m:naryPr", N("m:chr")), N("m:e", run("p")))),
-        ("d-sq", N("m:d", N("m:dPr", N("m:begChr", val="["), N("m:endChr", val="]")), N("m:e", run("b")))),
-        ("d-noval", N("m:d", N("m:dPr", N("m:begChr"), N("m:endChr")), N("m:e", run("b")))),
-        ("acc-tilde", N("m:acc", N("m:accPr", N("m:chr", val="̃")), N("m:e", run("t")))),
-        ("frac", N("m:f", N("m:num", run("1")), N("m:den", run("2")))),
-        ("func", N("m:func", N("m:fName", run(" sin ")), N("m:e", run("x")))),
-        ("matrix", N("m:m", N("m:mr", N("m:e", run("a")), N("m:e", run("b"))))),
-        ("ssubsup", N("m:sSubSup", N("m:e", run("x")), N("m:sub", run("i")), N("m:sup", run("2")))),
+        ("run", mrun("z")),
+        ("rad-lone", N("m:rad", N("m:deg"), N("m:e", mrun("(")))),
+        ("close", mrun("c)")),
+        ("nary-prod", N("m:nary", N("m:naryPr", N("m:chr", val="∏")), N("m:sub", mrun("i")), N("m:sup"), N("m:e", mrun("p")))),
+        ("nary-noval", N("m:nary", N("m:naryPr", N("m:chr")), N("m:e", mrun("p")))),
+        ("d-sq", N("m:d", N("m:dPr", N("m:begChr", val="["), N("m:endChr", val="]")), N("m:e", mrun("b")))),
+        ("d-noval", N("m:d", N("m:dPr", N("m:begChr"), N("m:endChr")), N("m:e", mrun("b")))),
+        ("acc-tilde", N("m:acc", N("m:accPr", N("m:chr", val="̃")), N("m:e", mrun("t")))),
+        ("frac", N("m:f", N("m:num", mrun("1")), N("m:den", mrun("2")))),
+        ("func", N("m:func", N("m:fName", mrun(" sin ")), N("m:e", mrun("x")))),
+        ("matrix", N("m:m", N("m:mr", N("m:e", mrun("a")), N("m:e", mrun("b"))))),
+        ("ssubsup", N("m:sSubSup", N("m:e", mrun("x")), N("m:sub", mrun("i")), N("m:sup", mrun("2")))),
     ]
 
 
@@ -288,7 +288,7 @@ def random_tree(rng, tabs, malformed):
             if rng.random() < 0.85:
                 c = content(depth - 1)
                 if kind == "rad" and nm == "e" and rng.random() < 0.35:
-                    c = [run(rng.choice(["(", "[", " (", "( ", "{" if malformed else "("]))]
+                    c = [mrun(rng.choice(["(", "[", " (", "( ", "{" if malformed else "("]))]
                 kids.append(N(tagname(nm), *c))
             if rng.random() < 0.15:
                 kids.append(noise())
